@@ -671,3 +671,86 @@ def uw9(P, C):
         C.ob("UW-9", name, "parameters-keep-their-roles", not bad, f.loc(bad[0][0]) if bad else f.where(),
              "none of the %d parameters is re-bound" % len(pids) if not bad else
              "%s: after that the arguments no longer mean what the caller handed over (the scale x[nx-1]-x[0] is taken from the wrong spline)" % bad[0][1])
+
+
+def uw10(P, C):
+    """UW-10: an array that is accumulated into starts from zero."""
+    from . import ts as _ts
+    C.rule("UW-10", "a heap array that a table operation accumulates into (`a[...] += ...`) — the scratch coefficient array of convolve, into which "
+           "the transfer matrix is multiplied — is filled with zero over its whole length (fill_n / fill / memset with the count of the "
+           "allocation, or a value-initialising new) on every path to the accumulation: `new float[n]` is uninitialised storage, and a small "
+           "array comes from recycled heap memory", floor=1)
+    n = 0
+    for f in sorted(P.functions.values(), key=lambda g: (g.file, g.line)):
+        if f.unit != "driver" or f.cls != _ts.CLS or not f.cfg or f.name not in ("convolve", "permuteDimensions", "fit", "grideval"):
+            continue
+        # locals that hold an array obtained by new[] (directly or in a unique_ptr) or from the allocator
+        arrays = {}
+        for i in f.walk():
+            if f.k(i) != "DeclStmt":
+                continue
+            for d in f.nodes[i]["decls"]:
+                init = d.get("init", -1)
+                if d.get("dk") != "Var" or init is None or init < 0:
+                    continue
+                news = [x for x in f.walk(init) if f.k(x) == "CXXNewExpr" and f.nodes[x].get("array")]
+                if news:
+                    sz = [c for c in f.ch(news[0]) if c >= 0]
+                    arrays[d["id"]] = (d["name"], i, f.render(sz[0]).replace(" ", "") if sz else "?", any(f.k(c) in ("ImplicitValueInitExpr", "InitListExpr") for c in f.ch(news[0])))
+        if not arrays:
+            continue
+        pos = f.node_positions()
+        dom = f.dominators()
+
+        def root_var(x):
+            x = f.strip(x)
+            while x >= 0:
+                k = f.k(x)
+                if k == "ArraySubscriptExpr":
+                    x = f.strip(f.nodes[x]["ch"][0])
+                elif k == "CXXOperatorCallExpr" and f.nodes[x].get("opcall") == "[]":
+                    x = f.strip(f.nodes[x]["ch"][1])
+                elif k == "CXXMemberCallExpr" and (f.nodes[x].get("callee") or {}).get("name") == "get":
+                    me = f.strip(f.nodes[x]["ch"][0])
+                    x = f.strip(f.ch(me)[0]) if f.ch(me) else -1
+                elif k == "DeclRefExpr":
+                    return f.nodes[x]["decl"].get("id")
+                else:
+                    return None
+            return None
+        acc = {}
+        for i in f.walk():
+            if f.k(i) == "CompoundAssignOperator" and f.nodes[i].get("op") in ("+=", "-=", "*="):
+                v = root_var(f.nodes[i]["ch"][0])
+                if v in arrays and f.k(f.strip(f.nodes[i]["ch"][0])) != "DeclRefExpr":
+                    acc.setdefault(v, []).append(i)
+        for v, sites in sorted(acc.items()):
+            name, decl, size, value_init = arrays[v]
+            fills = []
+            for i, cal in f.calls():
+                if cal and cal["name"] in ("fill_n", "fill", "memset", "bzero", "uninitialized_fill_n") and f.args(i):
+                    a = f.args(i)
+                    if root_var(a[0]) == v or (f.k(f.strip(a[0])) == "CXXMemberCallExpr" and root_var(f.strip(a[0])) == v):
+                        zero = cal["name"] in ("bzero",) or any(f.nodes[f.strip(x)].get("cv", f.nodes[f.strip(x)].get("v")) in (0, 0.0) for x in a[1:])
+                        whole = size != "?" and any(f.render(x).replace(" ", "").replace("sizeof(float)*", "").replace("*sizeof(float)", "") in (size, "(%s)" % size) or
+                                                    size in f.render(x).replace(" ", "") for x in a[1:])
+                        fills.append((i, zero and whole))
+            n += 1
+            ok = value_init
+            if not ok:
+                for s_ in sites:
+                    ps = pos.get(s_)
+                    x_ = s_
+                    while ps is None and x_ >= 0:
+                        x_ = f.parent[x_]
+                        ps = pos.get(x_) if x_ >= 0 else None
+                    ok = ps is not None and any(good and i in pos and (pos[i][0] in dom.get(ps[0], ()) and pos[i][0] != ps[0] or (pos[i][0] == ps[0] and pos[i][1] < ps[1]))
+                                                for i, good in fills)
+                    if not ok:
+                        break
+            C.ob("UW-10", f.name, "accumulator-starts-from-zero:%s" % name, ok, f.loc(sites[0]),
+                 "%s[%s] is zero-filled over its whole length before anything is accumulated into it" % (name, size) if ok else
+                 "%s = new[%s] is accumulated into at %s without a zero fill of the whole array on every path: the sums start from whatever the heap held" %
+                 (name, size, f.loc(sites[0])))
+    if n == 0:
+        raise core.AnalysisBroken("UW-10: no accumulated heap array found (convolve's scratch coefficients expected)")
